@@ -49,6 +49,8 @@ def cases(draw, tier="quick"):
         if cm[0] == "alloc":
             P["code_suffix"] = [None, "x"]
     payload = st.binary(max_size=12)
+    # (now and then a message of a few kilobytes, or around a power of two)
+    payload = st.one_of(payload, payload, payload, st.sampled_from([2008, 2009, 2048, 4096, 5000, 16384]).map(lambda n: b"\xa7" * n))
     P["sends"] = [draw(st.lists(payload, max_size=3)), draw(st.lists(payload, max_size=3))]
     if shape == "solo":
         P["sends"][1] = []
